@@ -7,6 +7,7 @@
 mod codec;
 mod common;
 mod linkmode;
+mod mst;
 mod ost;
 
 use std::io::BufRead;
@@ -79,6 +80,7 @@ fn main() {
                 let res = std::panic::catch_unwind(std::panic::AssertUnwindSafe(|| match m.as_str() {
                     "ost" => run_paused(ost::run_scenario(&sc)),
                     "link" => run_paused(linkmode::run_link(&sc)),
+                    "mst" => run_paused(mst::run_scenario(&sc)),
                     "transport" => run_paused(linkmode::run_transport(&sc)),
                     _ => {
                         eprintln!("unknown mode {m}");
